@@ -85,6 +85,9 @@ Proof. intros Hc. eapply okP_peq; [apply rep_rep_nat|]. now apply okP_rep_nat. Q
 (* ---------- independence of the known-length flag ---------- *)
 Definition oview {A} (o : out A) : out A := match o with OErr _ => OErr [] | x => x end.
 
+Lemma oview_ok A (o : out A) v r : oview o = OOk v r -> o = OOk v r.
+Proof. destruct o; cbn [oview]; congruence. Qed.
+
 Definition keq {A} (p : prog A) : Prop :=
   forall bs, oview (runo p true bs) = oview (runo p false bs).
 
